@@ -5,6 +5,7 @@ POSTCONDITION Report
 INVARIANT TypeOK
 INVARIANT ShapeKept
 INVARIANT CellsFollowGeometry
+INVARIANT FamiliesStayDisjoint
 INVARIANT FreePointsFollowGeometry
 INVARIANT BoundaryDataFollowGeometry
 INVARIANT OtherValuesUntouched
